@@ -78,6 +78,13 @@ def gen(r, tier):
     # directed: the shuffle reads of the many-key Reduce cut in the middle (every one of them in the thorough tier)
     for n in ((1, 2, 3, 4) if tier == "quick" else range(1, 9)):
         yield "bm M1 P2 ;; KILL Worker.Read %d mid ;; %s" % (n, SUITE[-1])
+    # directed: results that depend on each other along paths of different lengths (x1 = f(x0), x2 = f(x1), g(x0, x2)): a
+    # replacement machine whose first task belongs to the last program must be told about all of them, in dependency order
+    chain = ["N0=const 2 %s ; OUT N0" % ROWS, "N0=map R0 inc ; OUT N0", "N0=map R1 inc ; OUT N0",
+             "N0=cogroup R0 R2 ; N1=reduce N0 add ; OUT N1"]
+    for n in ((7, 9, 11) if tier == "quick" else range(6, 14)):
+        for cfg in ("bm M1 P2", "bm M1 P3"):
+            yield "%s ;; KILL Worker.Run %d before ;; %s" % (cfg, n, " ;; ".join(chain))
     boot = list(directed_boot())
     for c in (boot if tier != "quick" else [c for c in boot if r.below(3) == 0]):
         yield c
